@@ -12,12 +12,21 @@ import (
 	"path/filepath"
 	"strconv"
 	"strings"
+	"sync/atomic"
 	"testing"
 	"time"
 
+	hclog "github.com/hashicorp/go-hclog"
 	plugin "github.com/hashicorp/go-plugin"
+	"github.com/hashicorp/go-plugin/runner"
 	"verif/spec"
+	"verif/vp"
 )
+
+// cmdrunnerLike wraps a command in the harness's process runner.
+func cmdrunnerLike(cmd *exec.Cmd) (runner.Runner, error) {
+	return vp.NewProcRunner(cmd, cmd.Path)
+}
 
 func newHash(n string) hash.Hash {
 	switch n {
@@ -45,6 +54,35 @@ func TestC13(t *testing.T) {
 			os.WriteFile(path, content, 0o755)
 		}
 		var o spec.C13Obs
+		if p.ViaRunner {
+			cfg := baseClientConfig()
+			cfg.StartTimeout = 600 * time.Millisecond
+			hostSetFor(cfg, "netrpc")
+			var calls atomic.Int32
+			cfg.RunnerFunc = func(l hclog.Logger, cmd *exec.Cmd, tmp string) (runner.Runner, error) {
+				calls.Add(1)
+				real := exec.Command(path)
+				real.Env = []string{"VERIF_MARKER_DIR=" + d}
+				return cmdrunnerLike(real)
+			}
+			cfg.SecureConfig = &plugin.SecureConfig{Checksum: p.Checksum, Hash: newHash(p.Hash)}
+			cl := plugin.NewClient(cfg)
+			_, err := cl.Start()
+			o.Err = errStr(err)
+			o.IsMismatch = errors.Is(err, plugin.ErrChecksumsDoNotMatch) || (err != nil && strings.Contains(err.Error(), plugin.ErrChecksumsDoNotMatch.Error()))
+			time.Sleep(100 * time.Millisecond)
+			_, merr := os.Stat(marker)
+			o.Marker = merr == nil
+			o.RunnerCalls = int(calls.Load())
+			within(20*time.Second, cl.Kill)
+			h := newHash(p.Hash)
+			if h != nil {
+				h.Write(content)
+				o.FileSum = h.Sum(nil)
+			}
+			e.Ret("h", "Start", o)
+			return
+		}
 		if p.PathKind != "" {
 			tampered := append(append([]byte(nil), content...), '#', 'x')
 			kind, which, _ := strings.Cut(p.PathKind, "-")
